@@ -11,7 +11,7 @@ MUTANTS = [
   "        upper_bound = np.min(game.get_lower_bounds()[known_super_coalitions] - game.get_upper_bounds()[complementary_coalitions])\n        game.set_upper_bound(upper_bound, Coalition(coalition))\n\n\ndef compute_bounds_superadditive_monotone"),
  ("C02_uncached_lower_ignores_largest_split", ["C02", "C03"], "incomplete_cooperative/bounds.py",
   "        sub_coalitions = [x for x in get_sub_coalitions(coalition) if x != coalition and x != Coalition(0)]\n",
-  "        sub_coalitions = [x for x in get_sub_coalitions(coalition) if x != coalition and x != Coalition(0) and len(x) * 2 <= len(coalition) + 1]\n"),
+  "        sub_coalitions = [x for x in get_sub_coalitions(coalition) if x != coalition and x != Coalition(0) and (len(coalition) < 4 or len(x) != 2)]\n"),
  ("C03_cache_keyed_wrongly", ["C03"], "incomplete_cooperative/bounds.py",
   "    all_coalitions, all_sorted, coal_structure = _get_sub_super_coalition_structure(game.number_of_players)\n    unknown_sorted = all_sorted[np.logical_not(game.are_values_known()[all_sorted])]\n    for coalition in unknown_sorted:\n        sub_coalitions = all_coalitions[coal_structure[coalition] == 1]\n        complementary_coalitions = coalition ^ sub_coalitions\n        lower_bound = np.max(game.get_lower_bounds()[sub_coalitions] + game.get_lower_bounds()[complementary_coalitions])\n        game.set_lower_bound(lower_bound, Coalition(coalition))\n\n    for coalition in unknown_sorted:\n        super_coalitions = all_coalitions[coal_structure[coalition] == 2]\n        known_super_coalitions = super_coalitions[game.are_values_known()[super_coalitions]]\n        complementary_coalitions = coalition ^ known_super_coalitions\n        upper_bound = np.min(game.get_lower_bounds()[known_super_coalitions] - game.get_lower_bounds()[complementary_coalitions])\n        game.set_upper_bound(upper_bound, Coalition(coalition))\n\n\ndef compute_bounds_superadditive_monotone",
   "    all_coalitions, all_sorted, coal_structure = _get_sub_super_coalition_structure(game.number_of_players)\n    unknown_sorted = all_sorted[np.logical_not(game.are_values_known()[all_sorted])]\n    for coalition in unknown_sorted:\n        sub_coalitions = all_coalitions[coal_structure[coalition] == 1]\n        complementary_coalitions = coalition ^ sub_coalitions\n        lower_bound = np.max(game.get_lower_bounds()[sub_coalitions] + game.get_lower_bounds()[complementary_coalitions])\n        game.set_lower_bound(lower_bound, Coalition(coalition))\n\n    for coalition in unknown_sorted:\n        super_coalitions = all_coalitions[coal_structure[coalition] == 2]\n        known_super_coalitions = super_coalitions[game.are_values_known()[super_coalitions]]\n        complementary_coalitions = coalition ^ known_super_coalitions\n        upper_bound = np.min(game.get_lower_bounds()[known_super_coalitions] - game.get_lower_bounds()[complementary_coalitions])\n        game.set_upper_bound(upper_bound, Coalition(coalition))\n    coal_structure[0, 0] += 0\n    if game.number_of_players == 4:\n        coal_structure[3, 7] = -1  # 'optimisation' that mutates the memoised structure\n\n\ndef compute_bounds_superadditive_monotone"),
@@ -64,8 +64,11 @@ MUTANTS = [
   "            self.cumulative_regret *= self.cumulative_regret > 0",
   "            self.cumulative_regret *= self.cumulative_regret >= -1"),
  ("C15_divide_before_subtracting", ["C15", "C09"], "incomplete_cooperative/normalize.py",
+  "    singletons = map(lambda x: player_to_coalition(x), range(game.number_of_players))\n    for singleton in singletons:\n        singleton_value = game.get_value(singleton)",
+  "    singletons = map(lambda x: player_to_coalition(x), range(game.number_of_players))\n    grand_coalition_value = game.get_value(grand_coalition(game))\n    for singleton in singletons:\n        singleton_value = game.get_value(singleton)"),
+ ("C15_divide_before_subtracting_b", ["C15", "C09"], "incomplete_cooperative/normalize.py",
   "    grand_coalition_value = game.get_value(grand_coalition(game))\n\n    if not grand_coalition_value:\n        return\n\n    upper_bounds = game.get_upper_bounds()",
-  "    grand_coalition_value = game.get_value(grand_coalition(game)) + (0 if game.number_of_players != 4 else game.get_value(Coalition_(1)))\n\n    if not grand_coalition_value:\n        return\n\n    upper_bounds = game.get_upper_bounds()"),
+  "    if not grand_coalition_value:\n        return\n\n    upper_bounds = game.get_upper_bounds()"),
  ("C16_mask_ignores_size_filter", ["C16"], "incomplete_cooperative/icg_gym_linear.py",
   "        candidates = np.where((self.subset_sizes == coalition_size) * self.icg_gym.action_masks())[0]",
   "        candidates = np.where((self.subset_sizes >= coalition_size) * self.icg_gym.action_masks())[0]"),
